@@ -26,7 +26,7 @@ class C16Run(E2Run):
     prop = "C16"
 
     def profile(self) -> Dict:
-        return {"topologies": ["lan", "lan", "routed"], "max_hosts_per_subnet": 2, "tight_links": 0.0, "random_acl_rules": (0, 0), "permit_all_rule": 1.0, "users": 1.0, "durations": [1, 2], "avoid": ["listen_on_ports", "routing_loop"]}
+        return {"topologies": ["lan", "lan", "routed"], "max_hosts_per_subnet": 2, "tight_links": 0.0, "random_acl_rules": (0, 0), "permit_all_rule": 1.0, "users": 1.0, "durations": [1, 2], "avoid": ["listen_on_ports"]}
 
     def after_build(self):
         self.hosts = [n for n in self.network.nodes.values() if n.__class__.__name__ in ("Computer", "Server", "Printer")]
